@@ -19,8 +19,20 @@ SERIAL = True
 
 
 def _sets():
+    """the five command sets - and every other enumeration of OpCode objects the module exposes (a table added later is walked too)"""
     import pyscsi.pyscsi.scsi_enum_command as E
-    return E, {s: getattr(E, s) for s in SETS}
+    from pyscsi.pyscsi.scsi_opcode import OpCode
+    out = {s: getattr(E, s) for s in SETS}
+    for name, obj in sorted(vars(E).items()):
+        if name in out or name.startswith("_") or not isinstance(obj, type(E.spc)) or obj is E.SCSI_STATUS:
+            continue
+        try:
+            ks = obj.keys
+            if ks and all(isinstance(getattr(obj, k), OpCode) for k in ks):
+                out[name] = obj
+        except Exception:   # noqa: BLE001
+            pass
+    return E, out
 
 
 def partitions(tier):
@@ -309,7 +321,7 @@ def run_partition(part, tier, seed):
         return acc
     unasserted = []
     n_named = 0
-    for s in SETS:
+    for s in sets:
         for key in sets[s].keys:
             n_named += 1
             known = T.t10_value(s, key) is not None
@@ -323,8 +335,9 @@ def run_partition(part, tier, seed):
                 if not ksa:
                     unasserted.append("%s.%s/%s" % (s, key, sakey))
                 do(["sa", s, key, sakey], nontrivial=ksa)
-    for i, a in enumerate(SETS):
-        for b in SETS[i + 1:]:
+    allsets = list(sets)
+    for i, a in enumerate(allsets):
+        for b in allsets[i + 1:]:
             for key in sets[a].keys:
                 if key in sets[b].keys:
                     do(["same", a, b, key])
